@@ -4,11 +4,13 @@
    1. The system-call trace of one set:  mkdir* ; openat(O_WRONLY|O_CREAT|O_TRUNC) ; [write] ; [fsync] ; [write] ; close
       including Python's BufferedWriter: f.write(b) reaches the kernel immediately only when len(b) exceeds the
       buffer; otherwise at f.flush() (if the code calls it — regenerated flag) or at close, i.e. AFTER os.fsync.
-   2. A POSIX-style persistence model: per file a volatile content, a durable content (None = no durable
-      directory entry) and a dirty flag.  fsync(fd) makes the file's content durable; the directory entry of a
-      new file becomes durable with that fsync in the `journalled` variant and never in the `strict` variant
-      (klongpy never syncs a directory).  A crash keeps, per file and independently, either the durable
-      content (everything unsynced lost) or any byte prefix of the volatile content (none .. all of it).
+   2. A POSIX-style persistence model: per file a volatile content, the content last made durable by fsync, a
+      dirty flag and "directory entry durable"; per directory created "entry durable".  fsync(fd) makes the file's
+      content durable; a directory entry becomes durable by fsync of the directory that holds it (both variants)
+      and, in the `journalled` variant, the entries of a file and of all its ancestors also by fsync of the file.
+      A crash keeps, per file and independently: nothing at all if its name (or an ancestor's) is not durable;
+      the durable content (everything unsynced lost); any byte prefix of the volatile content; or - torn
+      in-place overwrite - such a prefix laid over the old durable content (truncation lost, data written).
    3. check_crash: a decidable checker over (recorded or generated) traces, proved sound in Proofs.v.
    No proofs in this file. *)
 From Coq Require Import ZArith List Bool.
@@ -32,12 +34,40 @@ Inductive ev :=
 | Open (n : name)                 (* O_CREAT | O_TRUNC *)
 | Write (n : name) (d : bytes)
 | Fsync (n : name)
-| Close (n : name).
+| Close (n : name)
+| FsyncDir (p : name).            (* open(dir, O_RDONLY); fsync; close *)
+
+(* ---- 2. persistence ---- *)
+Record fstate := mkF { f_vol : bytes ; f_synced : option bytes ; f_dirty : bool ; f_entry : bool }.
+Record pstate := mkP { p_files : list (name * fstate) ; p_dirs : list (name * bool) }.
+
+Fixpoint assoc {V} (l : list (name * V)) (n : name) : option V :=
+  match l with
+  | [] => None
+  | (m, v) :: r => if name_eqb m n then Some v else assoc r n
+  end.
+
+Fixpoint aset {V} (l : list (name * V)) (n : name) (v : V) : list (name * V) :=
+  match l with
+  | [] => [(n, v)]
+  | (m, w) :: r => if name_eqb m n then (m, v) :: r else (m, w) :: aset r n v
+  end.
+
+Definition parent (n : name) : name := removelast n.
+
+(* proper non-empty prefixes of n, outermost first: the directories above n *)
+Fixpoint prefixes_from (pre rest : name) : list name :=
+  match rest with
+  | [] => []
+  | x :: r => (pre ++ [x]) :: prefixes_from (pre ++ [x]) r
+  end.
+Definition ancestors (n : name) : list name := prefixes_from [] (parent n).
 
 (* ---- 1. the trace of _write_file ---- *)
 Section Trace.
   Variable flush_first : bool.      (* f.flush() before os.fsync  (regenerated from the source) *)
   Variable use_fsync : bool.        (* KeyValueStorage.set passes use_fsync=True (regenerated) *)
+  Variable sync_dirs : bool.        (* the directories that got a new entry are fsynced (regenerated) *)
   Variable bufsize : Z.             (* BufferedWriter buffer size of the file (observed) *)
 
   Definition direct (b : bytes) : bool := zlen b >? bufsize.          (* f.write goes straight to write(2) *)
@@ -53,69 +83,66 @@ Section Trace.
     ++ [Close n].
 
   (* os.makedirs: one mkdir per missing ancestor directory, outermost first *)
-  Fixpoint prefixes_from (pre rest : name) : list name :=
-    match rest with
-    | [] => []
-    | x :: r => (pre ++ [x]) :: prefixes_from (pre ++ [x]) r
-    end.
-
   Definition missing_dirs (dirs : list name) (n : name) : list name :=
-    filter (fun p => negb (existsb (name_eqb p) dirs)) (prefixes_from [] (removelast n)).
+    filter (fun p => negb (existsb (name_eqb p) dirs)) (ancestors n).
 
-  Definition set_trace (dirs : list name) (n : name) (b : bytes) : list ev :=
-    map Mkdir (missing_dirs dirs n) ++ core_trace n b.
-
-  (* a sequence of sets: (key, payload, its events) *)
-  Fixpoint sets_trace (dirs : list name) (sets : list (name * bytes)) : list (name * bytes * list ev) :=
-    match sets with
+  (* _fsync_dirs(write_path, dirname(created)): the parents of n and of every path component from `top`
+     (the outermost one created) downwards, innermost first *)
+  Definition path (n : name) : list name := ancestors n ++ [n].
+  Fixpoint from_top (top : name) (l : list name) : list name :=
+    match l with
     | [] => []
-    | (n, b) :: r => (n, b, set_trace dirs n b) :: sets_trace (missing_dirs dirs n ++ dirs) r
+    | x :: r => if name_eqb x top then l else from_top top r
     end.
+  Definition sync_chain (n top : name) : list name := rev (map parent (from_top top (path n))).
+
+  Definition set_trace (st : pstate) (n : name) (b : bytes) : list ev :=
+    let miss := missing_dirs (map fst (p_dirs st)) n in
+    let newfile := match assoc (p_files st) n with None => true | Some _ => false end in
+    map Mkdir miss ++ core_trace n b
+    ++ (if sync_dirs && use_fsync && (newfile || negb (match miss with [] => true | _ => false end))
+        then map FsyncDir (sync_chain n (match miss with top :: _ => top | [] => n end))
+        else []).
 End Trace.
 
-(* ---- 2. persistence ---- *)
-Record fstate := mkF { f_vol : bytes ; f_dur : option bytes ; f_dirty : bool }.
-Definition pstate := list (name * fstate).
-
-Fixpoint assoc {V} (l : list (name * V)) (n : name) : option V :=
-  match l with
-  | [] => None
-  | (m, v) :: r => if name_eqb m n then Some v else assoc r n
-  end.
-
-Fixpoint aset {V} (l : list (name * V)) (n : name) (v : V) : list (name * V) :=
-  match l with
-  | [] => [(n, v)]
-  | (m, w) :: r => if name_eqb m n then (m, v) :: r else (m, w) :: aset r n v
-  end.
-
 Section Persist.
-  Variable journalled : bool.    (* true: fsync of a new file also persists its directory entry; false: strict *)
+  Variable journalled : bool.    (* true: fsync of a file also persists its name and its ancestors' names *)
+
+  Definition set_entry (f : fstate) : fstate := mkF (f_vol f) (f_synced f) (f_dirty f) true.
+
+  Definition sync_children (st : pstate) (p : name) : pstate :=
+    mkP (map (fun kf => if name_eqb (parent (fst kf)) p then (fst kf, set_entry (snd kf)) else kf) (p_files st))
+        (map (fun qb => if name_eqb (parent (fst qb)) p then (fst qb, true) else qb) (p_dirs st)).
+
+  Definition sync_ancestors (st : pstate) (n : name) : pstate :=
+    mkP (p_files st)
+        (map (fun qb => if existsb (name_eqb (fst qb)) (ancestors n) then (fst qb, true) else qb) (p_dirs st)).
 
   Definition apply_ev (st : pstate) (e : ev) : pstate :=
     match e with
-    | Mkdir _ => st
+    | Mkdir p => match assoc (p_dirs st) p with
+                 | None => mkP (p_files st) (aset (p_dirs st) p false)
+                 | Some _ => st
+                 end
     | Close _ => st
     | Open n =>
-        match assoc st n with
-        | Some f => aset st n (mkF [] (f_dur f) true)
-        | None => aset st n (mkF [] None true)
+        match assoc (p_files st) n with
+        | Some f => mkP (aset (p_files st) n (mkF [] (f_synced f) true (f_entry f))) (p_dirs st)
+        | None => mkP (aset (p_files st) n (mkF [] None true false)) (p_dirs st)
         end
     | Write n d =>
-        match assoc st n with
-        | Some f => aset st n (mkF (f_vol f ++ d) (f_dur f) true)
+        match assoc (p_files st) n with
+        | Some f => mkP (aset (p_files st) n (mkF (f_vol f ++ d) (f_synced f) true (f_entry f))) (p_dirs st)
         | None => st                                    (* write without open: not produced *)
         end
     | Fsync n =>
-        match assoc st n with
+        match assoc (p_files st) n with
         | Some f =>
-            match f_dur f with
-            | Some _ => aset st n (mkF (f_vol f) (Some (f_vol f)) false)
-            | None => if journalled then aset st n (mkF (f_vol f) (Some (f_vol f)) false)
-                      else aset st n (mkF (f_vol f) None true)       (* data durable, but no durable name *)
-            end
+            let st1 := mkP (aset (p_files st) n (mkF (f_vol f) (Some (f_vol f)) false (f_entry f || journalled))) (p_dirs st) in
+            if journalled then sync_ancestors st1 n else st1
         | None => st
         end
+    | FsyncDir p => sync_children st p
     end.
 
   Fixpoint run (st : pstate) (evs : list ev) : pstate :=
@@ -130,12 +157,40 @@ Section Persist.
     | x :: r => [] :: map (cons x) (prefixes r)
     end.
 
-  (* what a crash may leave of one file *)
-  Definition cands (f : fstate) : list (option bytes) :=
-    if f_dirty f then f_dur f :: map Some (prefixes (f_vol f)) else [f_dur f].
+  Definition overlay (p old : bytes) : bytes := p ++ skipn (length p) old.
+
+  (* what a crash may leave of the CONTENT of one file whose name survives *)
+  Definition content_cands (f : fstate) : list bytes :=
+    (match f_synced f with Some c => [c] | None => [] end)
+    ++ (if f_dirty f
+        then prefixes (f_vol f)
+             ++ (match f_synced f with Some old => map (fun p => overlay p old) (prefixes (f_vol f)) | None => [] end)
+        else []).
+
+  Definition dir_durable (st : pstate) (p : name) : bool :=
+    match assoc (p_dirs st) p with Some b => b | None => true end.      (* directories found at start are durable *)
+
+  Definition reachable (st : pstate) (k : name) (f : fstate) : bool :=
+    f_entry f && forallb (dir_durable st) (ancestors k).
 
   Definition cands_of (st : pstate) (k : name) : list (option bytes) :=
-    match assoc st k with Some f => cands f | None => [None] end.
+    match assoc (p_files st) k with
+    | None => [None]
+    | Some f => (if reachable st k f then [] else [None]) ++ map Some (content_cands f)
+    end.
+
+  (* a sequence of sets: (key, payload, its events); the trace of each set depends on what exists *)
+  Section Sets.
+    Variable flush_first use_fsync sync_dirs : bool.
+    Variable bufsize : Z.
+    Fixpoint sets_trace (st : pstate) (sets : list (name * bytes)) : list (name * bytes * list ev) :=
+      match sets with
+      | [] => []
+      | (n, b) :: r =>
+          let evs := set_trace flush_first use_fsync sync_dirs bufsize st n b in
+          (n, b, evs) :: sets_trace (run st evs) r
+      end.
+  End Sets.
 
   (* ---- 3. the checker ---- *)
   Fixpoint bytes_eqb (a b : bytes) : bool :=
@@ -171,5 +226,6 @@ Section Persist.
         && check_from ks (run st evs) (aset e n (Some b)) rest
     end.
 
-  Definition check_crash (ks : list name) (sets : list (name * bytes * list ev)) : bool := check_from ks [] [] sets.
+  Definition empty_state : pstate := mkP [] [].
+  Definition check_crash (ks : list name) (sets : list (name * bytes * list ev)) : bool := check_from ks empty_state [] sets.
 End Persist.
